@@ -323,6 +323,59 @@ def prove_dispatch_total(src_root, fam, meth, ex: Explorer):
     ex.run(path, f'dispatch {fam}.{meth}')
 
 
+def prove_dispatch_history_free(src_root, ex: Explorer):
+    """What a frame decodes to depends on the frame, not on what arrived before - on ANY connection: a hostile frame on one connection
+    must not change how later frames (of any family) are decoded.  Message ids are only unique per family and kind, so the sharpest
+    history is: a frame with an id that is UNKNOWN to dispatcher F but VALID for dispatcher G is given to F (rejected), then G is given a
+    frame with that id - it must still find its class.  Every ordered pair of dispatchers for which such an id exists is executed, on one
+    interpreter (module-level state of the analysed source persists between the two calls)."""
+    import struct as _st
+    ids = {}
+    for q, spec in LAYOUT['messages'].items():
+        ids.setdefault((spec['family'], 'deserialize_' + spec['kind'].lower()), {})[spec['id']] = (q, spec['id_type'])
+
+    def frame(fam_meth, mid):
+        id_type = next(iter(ids[fam_meth].values()))[1]
+        body = _st.pack('<B' if id_type == 'uint8' else '<I', mid)
+        return Rope([Lit(_st.pack('<I', len(body)) + body)])
+
+    def path(ctx: Ctx):
+        pairs = [(f, g) for f in DISPATCHERS for g in DISPATCHERS if f != g and f in ids and g in ids]
+        F, G = pairs[ctx.choose(len(pairs), 'pair')]
+        F, G = tuple(F), tuple(G)
+        cand = sorted(i for i in ids[G] if i not in ids[F] and (i < 256 or next(iter(ids[F].values()))[1] != 'uint8'))
+        if not cand:
+            return
+        mid = cand[0]
+        it = mk_total_interp(src_root, ctx, prim_contracts=False)
+        decoded = []
+
+        def msg_contract(it2, f, args, kwargs):
+            decoded.append(args[0])
+            return Obj(args[0])
+        it.hooks[f'{PRIM}:MessageDataclass.deserialize'] = msg_contract
+        for q, spec in LAYOUT['messages'].items():
+            if spec['compressed']:
+                it.hooks[f'{MSG}:{q}.deserialize'] = msg_contract
+        tag = f'{F[0]}.{F[1]}->{G[0]}.{G[1]},id={mid}'
+        try:
+            it.call(it.class_attr(cls(it, MSG, F[0]), F[1]), [frame(F, mid)], {})
+            first = 'decoded'
+        except PyRaise as pr:
+            first = pr.exc.cls.name
+        if first != 'UnknownMessageError':
+            raise Unsupported(f'history-free[{tag}]: the first dispatcher did not reject the unknown id ({first})')
+        try:
+            r = it.call(it.class_attr(cls(it, MSG, G[0]), G[1]), [frame(G, mid)], {})
+            second = r.cls.qual if isinstance(r, Obj) else repr(r)
+        except PyRaise as pr:
+            second = 'raises ' + pr.exc.cls.name
+        ctx.prove(f'C02.dispatch.history-free[{tag}]', second == ids[G][mid][0],
+                  f'after {F[0]}.{F[1]} rejected a frame with the unknown id {mid}, {G[0]}.{G[1]} decodes a frame with id {mid} as: {second} '
+                  f'(expected {ids[G][mid][0]}): one hostile frame changes how later frames are decoded')
+    ex.run(path, 'dispatch-history-free')
+
+
 # ---------------------------------------------------------------------------
 # obfuscation.decode on arbitrary bytes
 
@@ -873,6 +926,7 @@ def items(src_root, tier):
     out += [('array', t) for t in elem_types()]
     out += [('msg', q) for q in sorted(LAYOUT['messages'])]
     out += [('dispatch', d) for d in DISPATCHERS]
+    out += [('dispatch-history', None)]
     out += [('obf', None), ('conn', 'decode'), ('conn', 'framing'), ('conn', 'read'), ('conn', 'loop'),
             ('conn', 'accepted'), ('conn', 'receive-object'), ('handlers', None)]
     return out
@@ -894,6 +948,8 @@ def run_item(src_root, item, tier):
             prove_message_total(src_root, arg, ex)
         elif kind == 'dispatch':
             prove_dispatch_total(src_root, arg[0], arg[1], ex)
+        elif kind == 'dispatch-history':
+            prove_dispatch_history_free(src_root, ex)
         elif kind == 'obf':
             prove_obf_total(src_root, ex)
         elif kind == 'conn':
